@@ -239,6 +239,15 @@ func writeGroupIni(cmd *Command, group *Group, namespace string, writer io.Write
 
 		val := option.value
 
+		// A pointer to a slice or a map is written like the slice or map itself
+		for val.Kind() == reflect.Ptr && !val.IsNil() {
+			if k := val.Type().Elem().Kind(); k != reflect.Slice && k != reflect.Map && k != reflect.Ptr {
+				break
+			}
+
+			val = val.Elem()
+		}
+
 		if (options&IniIncludeDefaults) == IniNone && option.valueIsDefault() {
 			continue
 		}
